@@ -96,8 +96,7 @@ func VerifC04Keys() {
 //   - both sides derive the same symmetric key; the recipient decrypts exactly the dealt share;
 //   - a complaint against a correct share (with the right key and an honest proof) is refuted
 //     (VerifyComplaint != nil), so only the complainant is blamed;
-//   - any other share (dealt + delta, delta != 0) makes the honest complaint succeed (VerifyComplaint == nil);
-//   - a complaint carrying any other symmetric key (key + delta·G) fails its proof.
+//   - any other share (dealt + delta, delta != 0) makes the honest complaint succeed (VerifyComplaint == nil).
 func VerifC04Complaint() {
 	t := vs.Param("t")
 	vs.AssumeHashScalars()
@@ -143,12 +142,8 @@ func VerifC04Complaint() {
 		vs.Reach("false-complaint-refuted", true)
 	}
 
-	// a complaint that names another symmetric key cannot carry a valid proof
-	wrongKey, err := SumPoints(keySym, c03Scalar("delta_key").Point())
-	vs.Assert("wrong-key-builds", err == nil)
-	if wrongKey.Validate() == nil {
-		vs.Assert("wrong-key-proof-fails", VerifyComplaintSignature(recipient.otPub, dealer.otPub, wrongKey, sig) != nil)
-	}
+	// (a complaint naming another symmetric key must fail its DLEQ proof: that is a random-oracle soundness
+	// argument — with keccak uninterpreted the solver may choose the challenge — and is outside this check.)
 }
 
 // VerifC04Round1Proofs: completeness of the round-1 / round-3 proofs of possession and their binding to the
